@@ -219,19 +219,21 @@ def declare(spec):
     # ---- candidates for the node's next event -------------------------------------------------------------
     PNE_MOD = ["$dict@self.possible_next_events", "$seq[Local]"]
     add(spec, "Node.update_next_end_service_with_server",
-        requires=["has(self, 'possible_next_events')", INV("has_servers(self)"), "'end_service' not in self.possible_next_events"],
+        requires=["has(self, 'possible_next_events')", INV("has_servers(self)"),
+                  "implies(not self.slotted and not isinf(self.c), 'end_service' not in self.possible_next_events)"],
         modifies=PNE_MOD, allocates=True,
         ensures=[
-            ("not-applicable-nothing-written", "implies(self.slotted or isinf(self.c), 'end_service' not in self.possible_next_events)"),
+            ("not-applicable-nothing-written", "implies(self.slotted or isinf(self.c), ref_eq(pne(self, 'end_service'), old(pne(self, 'end_service'))) "
+             "and ('end_service' in self.possible_next_events) == old('end_service' in self.possible_next_events))"),
             ("C02+C07:end-service-date-is-the-earliest-server-end-date",
              "implies(not self.slotted and not isinf(self.c), forall_in(self.servers, lambda s: pdate(self, 'end_service') <= s.next_end_service_date))"),
             ("C02:attained-by-a-server",
-             "implies('end_service' in self.possible_next_events, exists_in(self.servers, lambda s: s.next_end_service_date == pdate(self, 'end_service')))"),
+             "implies(not self.slotted and not isinf(self.c) and 'end_service' in self.possible_next_events, exists_in(self.servers, lambda s: s.next_end_service_date == pdate(self, 'end_service')))"),
             ("C07:blocked-or-idle-servers-are-no-candidates",
-             "implies('end_service' in self.possible_next_events, not isinf(pdate(self, 'end_service')) and is_list(self.possible_next_events['end_service'][0]) and "
+             "implies(not self.slotted and not isinf(self.c) and 'end_service' in self.possible_next_events, not isinf(pdate(self, 'end_service')) and is_list(self.possible_next_events['end_service'][0]) and "
              "forall_in(as_list(self.possible_next_events['end_service'][0], 'Any'), lambda c: exists_in(self.servers, lambda s: ref_eq(s.cust, c) "
              "and s.next_end_service_date == pdate(self, 'end_service'))))"),
-            ("others-untouched", "forall_in(['slotted_service', 'shift_change', 'class_change', 'renege'], lambda k: ref_eq(pne(self, k), old(pne(self, k))))"),
+            ("others-untouched", "forall_in(['slotted_service', 'shift_change', 'class_change', 'renege'], lambda k: ref_eq(pne(self, k), old(pne(self, k))) and (k in self.possible_next_events) == old(k in self.possible_next_events))"),
         ],
         loop_invariants={0: [
             "is_number(next_end_service_date)",
@@ -242,7 +244,7 @@ def declare(spec):
             "and exists_int(lambda j: 0 <= j and j < _i and _it[j].next_end_service_date == next_end_service_date, trigger=lambda j: _it[j]) "
             "and forall_in(as_list(self.possible_next_events['end_service'][0], 'Any'), lambda c: exists_int(lambda j: 0 <= j and j < _i and ref_eq(_it[j].cust, c) "
             "and _it[j].next_end_service_date == next_end_service_date, trigger=lambda j: _it[j])))",
-            "forall_in(['slotted_service', 'shift_change', 'class_change', 'renege'], lambda k: ref_eq(pne(self, k), old(pne(self, k))))",
+            "forall_in(['slotted_service', 'shift_change', 'class_change', 'renege'], lambda k: ref_eq(pne(self, k), old(pne(self, k))) and (k in self.possible_next_events) == old(k in self.possible_next_events))",
         ]},
         props=["C02", "C07"])
 
@@ -259,7 +261,7 @@ def declare(spec):
              "and is_list(self.possible_next_events['end_service'][0]) and "
              "forall_in(as_list(self.possible_next_events['end_service'][0], 'Any'), lambda c: is_obj(c, 'Individual') and not as_obj(c, 'Individual').is_blocked "
              "and is_time(as_obj(c, 'Individual').service_end_date) and as_obj(c, 'Individual').service_end_date == pdate(self, 'end_service')))"),
-            ("others-untouched", "forall_in(['slotted_service', 'shift_change', 'class_change', 'renege'], lambda k: ref_eq(pne(self, k), old(pne(self, k))))"),
+            ("others-untouched", "forall_in(['slotted_service', 'shift_change', 'class_change', 'renege'], lambda k: ref_eq(pne(self, k), old(pne(self, k))) and (k in self.possible_next_events) == old(k in self.possible_next_events))"),
         ],
         loop_invariants={0: [
             "is_time(next_end_service_date)",
@@ -270,7 +272,7 @@ def declare(spec):
             "and is_list(self.possible_next_events['end_service'][0]) and not alive_before_loop(self.possible_next_events['end_service'][0]) "
             "and forall_in(as_list(self.possible_next_events['end_service'][0], 'Any'), lambda c: is_obj(c, 'Individual') and not as_obj(c, 'Individual').is_blocked "
             "and is_time(as_obj(c, 'Individual').service_end_date) and as_obj(c, 'Individual').service_end_date == next_end_service_date))",
-            "forall_in(['slotted_service', 'shift_change', 'class_change', 'renege'], lambda k: ref_eq(pne(self, k), old(pne(self, k))))",
+            "forall_in(['slotted_service', 'shift_change', 'class_change', 'renege'], lambda k: ref_eq(pne(self, k), old(pne(self, k))) and (k in self.possible_next_events) == old(k in self.possible_next_events))",
         ]},
         props=["C02", "C07", "C12"])
 
@@ -659,3 +661,57 @@ def declare(spec):
             ("C01:a-blocked-customer-stays-where-it-is", "ref_eq(loc(next_individual), self) and self.number_of_individuals == old(self.number_of_individuals)"),
         ]},
         props=["C03", "C06", "C07", "C09"])
+
+    add(spec, "Node.update_next_renege_time",
+        requires=["has(self, 'possible_next_events')", INV("shape(self)"), INV("pop_fwd(self)"),
+                  "implies(not isinf(self.c) and self.reneging is True, 'renege' not in self.possible_next_events)",
+                  INV("implies(not isinf(self.c) and self.reneging is True, forall_in(self.individuals, lambda q: forall_in(q, lambda i: has(i, 'reneging_date'))))")],
+        modifies=PNE_MOD, allocates=True,
+        ensures=[
+            ("not-applicable-nothing-written", "implies(isinf(self.c) or not (self.reneging is True), ref_eq(pne(self, 'renege'), old(pne(self, 'renege'))) "
+             "and ('renege' in self.possible_next_events) == old('renege' in self.possible_next_events))"),
+            ("C13:renege-date-is-the-earliest-patience-end-among-waiting-customers",
+             "implies(not isinf(self.c) and self.reneging is True, forall_in(self.individuals, lambda q: forall_in(q, lambda i: "
+             "implies(not i.server, pdate(self, 'renege') <= i.reneging_date))))"),
+            ("C13:candidates-are-waiting-customers-whose-patience-ends-then",
+             "implies(not isinf(self.c) and self.reneging is True and 'renege' in self.possible_next_events, not isinf(pdate(self, 'renege')) "
+             "and is_list(self.possible_next_events['renege'][0]) and "
+             "forall_in(as_list(self.possible_next_events['renege'][0], 'Any'), lambda c: is_obj(c, 'Individual') and not as_obj(c, 'Individual').server "
+             "and as_obj(c, 'Individual').reneging_date == pdate(self, 'renege')))"),
+            ("others-untouched", "forall_in(['slotted_service', 'shift_change', 'class_change', 'end_service'], lambda k: ref_eq(pne(self, k), old(pne(self, k))) and (k in self.possible_next_events) == old(k in self.possible_next_events))"),
+        ],
+        loop_invariants={0: [
+            "is_time(next_renege_date)",
+            "forall_int(lambda j: implies(0 <= j and j < _i and not _it[j].server, next_renege_date <= _it[j].reneging_date), trigger=lambda j: _it[j])",
+            "('renege' in self.possible_next_events) == (not isinf(next_renege_date))",
+            "implies('renege' in self.possible_next_events, pdate(self, 'renege') == next_renege_date "
+            "and is_list(self.possible_next_events['renege'][0]) and not alive_before_loop(self.possible_next_events['renege'][0]) "
+            "and forall_in(as_list(self.possible_next_events['renege'][0], 'Any'), lambda c: is_obj(c, 'Individual') and not as_obj(c, 'Individual').server "
+            "and as_obj(c, 'Individual').reneging_date == next_renege_date))",
+            "forall_in(['slotted_service', 'shift_change', 'class_change', 'end_service'], lambda k: ref_eq(pne(self, k), old(pne(self, k))) and (k in self.possible_next_events) == old(k in self.possible_next_events))",
+        ]},
+        props=["C13"])
+
+    # ---- the node's next event: the earliest of all candidates (C02) ---------------------------------------------------
+    add(spec, "Node.update_next_event_date",
+        requires=[INV("shape(self)"), INV("pop_fwd(self)"), INV("has_servers(self)"), INV("dyn_ok(self)"),
+                  INV("implies(not isinf(self.c) and self.reneging is True, forall_in(self.individuals, lambda q: forall_in(q, lambda i: has(i, 'reneging_date'))))"),
+                  INV("implies(self.schedule is not None and self.schedule.schedule_type == 'schedule', has(self, 'next_shift_change'))"),
+                  INV("implies(self.schedule is not None and self.schedule.schedule_type == 'slotted', cls_is(self.schedule, 'Slotted'))")],
+        modifies=["possible_next_events@self", "next_event_date@self", "next_event_type@self", "next_individual@self",
+                  "$dict[Local]", "$dict[PNE]", "$seq[Local]"], allocates=True,
+        ensures=[
+            ("C02+C07:not-later-than-any-server-end-date",
+             "implies(not self.slotted and not isinf(self.c), forall_in(self.servers, lambda s: self.next_event_date <= s.next_end_service_date))"),
+            ("C02+C13:not-later-than-any-waiting-customers-patience",
+             "implies(not isinf(self.c) and self.reneging is True, forall_in(self.individuals, lambda q: forall_in(q, lambda i: "
+             "implies(not i.server, self.next_event_date <= i.reneging_date))))"),
+            ("C02+C12:not-later-than-the-next-shift-change",
+             "implies(self.schedule is not None and self.schedule.schedule_type == 'schedule', self.next_event_date <= self.next_shift_change)"),
+            ("C02+C12:not-later-than-the-next-slot",
+             "implies(self.schedule is not None and self.schedule.schedule_type == 'slotted', self.next_event_date <= as_obj(self.schedule, 'Slotted').next_slot_date)"),
+            ("C14:event-type-is-known", "self.next_event_type is None or self.next_event_type == 'end_service' or self.next_event_type == 'renege' "
+             "or self.next_event_type == 'shift_change' or self.next_event_type == 'class_change' or self.next_event_type == 'slotted_service'"),
+            ("C14:bookkeeping-exists", "has(self, 'possible_next_events')"),
+        ],
+        props=["C02", "C07", "C12", "C13", "C14"])
